@@ -315,6 +315,25 @@ func checkC08(p *Prog, r *Report) {
 			}
 			lt := p.Term(as.Lhs[0])
 			okRoot := lt.Key() == root.Key() || fs.Resolve(lt).Key() == root.Key()
+			if !okRoot && as.Tok == token.DEFINE {
+				// sealed := Seal(…); <root> = sealed — the temporary is copied back in the same block
+				if id, isId := ast.Unparen(as.Lhs[0]).(*ast.Ident); isId {
+					if tv, _ := p.Info.Defs[id].(*types.Var); tv != nil && len(p.Assignments(fi, tv)) == 1 {
+						if pt, okP := cf.PointOf(as); okP {
+							for _, nd := range pt.B.Nodes[pt.I+1:] {
+								if a2, ok := nd.(*ast.AssignStmt); ok && len(a2.Lhs) == 1 && len(a2.Rhs) == 1 && a2.Tok == token.ASSIGN {
+									if rid, ok := ast.Unparen(a2.Rhs[0]).(*ast.Ident); ok && p.Info.Uses[rid] == types.Object(tv) {
+										l2 := p.Term(a2.Lhs[0])
+										if l2.Key() == root.Key() || fs.Resolve(l2).Key() == root.Key() {
+											okRoot = true
+										}
+									}
+								}
+							}
+						}
+					}
+				}
+			}
 			okLive := true
 			why := ""
 			if id, isId := ast.Unparen(as.Lhs[0]).(*ast.Ident); isId {
